@@ -5,9 +5,9 @@ from run import selftest as W
 from run import witnesses2 as W2
 
 PROPERTY = "C01"
-LEAN_MODULES = ["LccModel.Props.C01", "LccModel.Props.C01Graph", "LccModel.Props.C01Run", "LccModel.Props.C01Expand", "LccModel.Props.C01Accept"]
-PROPS_FILES = ["LccModel/Props/C01.lean", "LccModel/Props/C01Graph.lean", "LccModel/Props/C01Run.lean", "LccModel/Props/C01Expand.lean", "LccModel/Props/C01Accept.lean"]
-NAMESPACES = {"LccModel/Props/C01.lean": "LccModel.C01", "LccModel/Props/C01Graph.lean": "LccModel.C01Graph", "LccModel/Props/C01Run.lean": "LccModel.C01Run", "LccModel/Props/C01Expand.lean": "LccModel.C01Expand", "LccModel/Props/C01Accept.lean": "LccModel.C01Accept"}
+LEAN_MODULES = ["LccModel.Props.C01", "LccModel.Props.C01Graph", "LccModel.Props.C01Run", "LccModel.Props.C01Expand", "LccModel.Props.C01Accept", "LccModel.Props.C01Locale"]
+PROPS_FILES = ["LccModel/Props/C01.lean", "LccModel/Props/C01Graph.lean", "LccModel/Props/C01Run.lean", "LccModel/Props/C01Expand.lean", "LccModel/Props/C01Accept.lean", "LccModel/Props/C01Locale.lean"]
+NAMESPACES = {"LccModel/Props/C01.lean": "LccModel.C01", "LccModel/Props/C01Graph.lean": "LccModel.C01Graph", "LccModel/Props/C01Run.lean": "LccModel.C01Run", "LccModel/Props/C01Expand.lean": "LccModel.C01Expand", "LccModel/Props/C01Accept.lean": "LccModel.C01Accept", "LccModel/Props/C01Locale.lean": "LccModel.C01Locale"}
 DRIVER = "drivers/Run.lean"
 TRUSTED_BASE = RUN_TRUSTED + ["scheduler-only stream: harness/props/_sched.py drives the real run_tasks with synthetic tasks (drivers/Sched.lean)"]
 ASSUMPTIONS = RUN_ASSUMPTIONS + ["Valid P (Lemmas/Graph.lean): sibling suite names distinct incl. the top level (the top level is NOT checked by the real loader: observation in DESIGN), test names distinct per suite, dependencies resolved and acyclic"]
@@ -42,7 +42,7 @@ class Run(PropRunStream):
     quick_cases = 270
     quick_seconds = 45
     p_interrupt = 0.2           # interrupted runs are ordinary cases since fix D11
-    corpus = [witness("D1 "), witness("D3 "), witness("D11 ")] + W2.CONTROLS + W2.CONTROLS2
+    corpus = [witness("D1 "), witness("D3 "), witness("D11 ")] + W2.CONTROLS + W2.CONTROLS2 + W2.CONTROLS3
 
 
 class RunPT(PropRunStream):
@@ -67,5 +67,16 @@ TRUSTED_BASE = TRUSTED_BASE + DECL_TRUSTED
 RULE = RULE + "; " + DECL_RULE
 
 
+from props._c01loc import Locale       # C01.locale: real `lcc run` in a child process under an ASCII / UTF-8 locale, real file backends
+
+TRUSTED_BASE = TRUSTED_BASE + ["locale stream: harness/props/_c01loc.py (child processes under LC_ALL=C without coercion / C.UTF-8, the real "
+                               "`lcc run` glue and file backends, drivers/C10.lean); Model/LocaleFile.lean (codecs, account of a report); "
+                               "`json.loads` inverting `json.dumps` is a parameter of Props/C01Locale.lean as it is of C09"]
+RULE = RULE + ("; locale stream: locale of the child process (ASCII 60 % / UTF-8 40 %) × attached backends (json alone 50 %, with html / console / "
+               "xml / junit, any order) × --save-report × generated project (nesting, disabled / dependent tests, hooks, 1..4 threads) whose "
+               "texts hold Latin-1 / BMP / astral characters or lone surrogates in ~70 % of the cases; non-trivial = >= 1 scheduled test and "
+               ">= 1 recorded event")
+
+
 def streams(ctx):
-    return [Sched(), Run(), RunPT(), Decl()]
+    return [Sched(), Run(), RunPT(), Decl(), Locale()]
